@@ -12,7 +12,7 @@ import numbers
 from ..core.common import Collector, run_shards
 from ..core.explorer import explore_part, run_once
 from ..core import shim as shim_mod
-from .c13 import BOXES
+from .c13 import BOXES, pname
 
 PROPERTY = "C08"
 LEVEL = "exploration"
@@ -182,9 +182,9 @@ OFFGRID = ([0.0, 1.6], [0.0, 0.37], [-0.93, 0.41], [3.0, 13.7])
 def check_generator(gen, nparams, shift, arg, precision):
     from artap import operators as ops
     if shift >= 100:      # bounds that do not lie on the precision grid
-        ps = [{"name": "p%d" % i, "bounds": list(OFFGRID[(i + shift) % len(OFFGRID)])} for i in range(nparams)]
+        ps = [{"name": pname(i), "bounds": list(OFFGRID[(i + shift) % len(OFFGRID)])} for i in range(nparams)]
     else:
-        ps = [{"name": "p%d" % i, "bounds": list(BOXES[(i + shift) % len(BOXES)])} for i in range(nparams)]
+        ps = [{"name": pname(i), "bounds": list(BOXES[(i + shift) % len(BOXES)])} for i in range(nparams)]
     if precision is not None:
         for p in ps:
             p["precision"] = precision
